@@ -1,7 +1,8 @@
 ---- MODULE ExportHttpPattern ----
 EXTENDS SpyneHttpPattern, Json, IOUtils, SequencesExt
 ASSUME Unambiguous
-ASSUME JsonSerialize(IOEnv.OUT_FILE, SetToSeq({[verb |-> r[1], host |-> r[2], path |-> r[3], route |-> Route(r[1], r[2], r[3])] : r \in Requests}))
+ASSUME JsonSerialize(IOEnv.OUT_FILE, [rows |-> SetToSeq({[verb |-> r[1], host |-> r[2], path |-> r[3], route |-> Route(r[1], r[2], r[3])] : r \in Requests}),
+                                      mounts |-> SetToSeq(Mounts), mountrows |-> SetToSeq({[frag |-> f, route |-> MountRoute(f)] : f \in MountFragments})])
 VARIABLE x
 Init == x = 0
 Next == UNCHANGED x
